@@ -75,6 +75,16 @@ fn main() {
             (e.run)(prop, &mut ge, &budget, &mut out);
         }
     }
+    if ["C01", "C04", "C05", "C07", "C16"].contains(&prop) {
+        // element types of several KiB (the capacity hint divides 4096 by the element size)
+        gen::SMALL_ONLY.store(true, std::sync::atomic::Ordering::Relaxed);
+        let small = Budget { values: 3, thorough: false };
+        for e in &catalogue::big_elem_catalogue() {
+            let mut ge = g.fork();
+            (e.run)(prop, &mut ge, &small, &mut out);
+        }
+        gen::SMALL_ONLY.store(false, std::sync::atomic::Ordering::Relaxed);
+    }
     if ["C08", "C09", "C10", "C17"].contains(&prop) {
         for (_, run) in catalogue::schema_catalogue().into_iter().chain(generated::derived_schema_catalogue()) {
             let mut ge = g.fork();
